@@ -307,6 +307,15 @@ class KeyedSet(Generic[ItemType, KeyType], MutableSet, KeyedBase):  # pylint: di
 
     # MutableSet implementation
 
+    def _from_iterable(self, it):  # pylint: disable=arguments-differ
+        # Used by the `Set` mixins to build the results of `|`, `&`, `-` and
+        # `^`; results must identify items by the same key function.
+        return type(self)(
+            it,
+            key=self._key,
+            enforce_item_equivalence=self.enforce_item_equivalence,
+        )
+
     def __contains__(self, item_or_key):
         # Check whether item_or_key exists as a key
         try:
